@@ -337,6 +337,9 @@ def geo2grid(lat, lon, zone=0, ellipsoid=grs80, prj=utm):
             amgzone = (float(lon) - (prj.initialcm - (4.5 * prj.zonewidth))) / (prj.zonewidth * 3)
             subzone = int((amgzone - int(amgzone)) * 3 + 1)
             amgzone = int(amgzone)
+            # the division can round up to the next zone just below a zone boundary
+            if float(lon) < (amgzone - 1) * prj.zonewidth * 3 + prj.initialcm + (subzone - 2.5) * prj.zonewidth:
+                amgzone, subzone = (amgzone, subzone - 1) if subzone > 1 else (amgzone - 1, 3)
             zone = int(f'{amgzone}{subzone}')
         else:
             zone = int((float(lon) - (prj.initialcm - (1.5 * prj.zonewidth))) / prj.zonewidth)
